@@ -52,6 +52,40 @@ lazy_static! {
 }
 
 impl Type {
+    /// A rendering of the type that does not depend on the iteration order of union members and
+    /// struct fields (both are kept in hash collections); used to pick members deterministically.
+    pub(crate) fn canonical_key(&self) -> String {
+        match self {
+            Type::Multi(members) => {
+                let mut keys: Vec<String> = members.iter().map(Type::canonical_key).collect();
+                keys.sort();
+                format!("({})", keys.join("|"))
+            }
+            Type::Struct(fields) => {
+                let mut keys: Vec<String> = fields
+                    .0
+                    .iter()
+                    .map(|(name, var_type)| format!("{name}:{}", var_type.canonical_key()))
+                    .collect();
+                keys.sort();
+                format!("struct{{{}}}", keys.join(","))
+            }
+            Type::Array(element) => format!("[{}]", element.canonical_key()),
+            Type::Mut(element) => format!("mut {}", element.canonical_key()),
+            Type::Tuple(elements) => {
+                let keys: Vec<String> = elements.iter().map(Type::canonical_key).collect();
+                format!("({})", keys.join(","))
+            }
+            Type::Function(function) => {
+                let keys: Vec<String> = function.params.iter().map(Type::canonical_key).collect();
+                format!("({})->{}", keys.join(","), function.return_type.canonical_key())
+            }
+            other => other.to_string(),
+        }
+    }
+}
+
+impl Type {
     #[must_use]
     pub fn matches(&self, other: &Self) -> bool {
         match_any! { (self, other),
